@@ -1,4 +1,5 @@
 mod probes;
+mod engine;
 fn main() {
     let args: Vec<String> = std::env::args().collect();
     if args.len() < 2 {
@@ -7,6 +8,7 @@ fn main() {
     }
     match args[1].as_str() {
         "fn" => probes::run_fn(),
+        "life" => engine::run_life(),
         _ => {
             eprintln!("unknown mode");
             std::process::exit(2);
